@@ -2,11 +2,40 @@
 C09 — circuit rewrites preserve the transformation.
 
 Model: LW.Model.Rewrite (compressSwaps, convertNonAdj), LW.Model.Circuit (unpackSpec,
-unpackGroups).  A generated circuit (dense mode swaps interleaved with every component kind,
-plain and heralded groups, reversed non-adjacent beam splitters) is put through a random sequence
-of rewrites; after every rewrite the implementation must still report the same U_full, heralds and
-input size as before the first rewrite (property oracle), must satisfy the structural
-postcondition of that rewrite, and must agree with the model run on the same program.
+unpackGroups).
+
+Streams, in this order:
+  1. directed corpus of HISTORIES (helpers in harness/c09gen.py):
+     * hoist:   a block (group / grouped unitary / ungrouped) on every span of a 4-mode circuit, a heralded
+                sub-circuit whose ancilla is inserted at every position relative to it (before, at either
+                boundary, inside, after; also placed BEFORE the block), one swap before and one after, the
+                latter on the block's boundary modes; then every rewrite sequence;
+     * params:  a Parameter (phase / reflectivity / loss / the shared loss= of a beam splitter) at the top
+                level, inside a group, inside a group that arrived through a nested addition, inside a
+                heralded group, shared between the top level and a group; every rewrite sequence (also on a
+                copy / frozen copy); then Parameter.set, a further rewrite, Parameter.set again;
+     * family:  original, copy(), copy(freeze_parameters=True), copy of the copy, a + b, b + a, hosts that
+                hold the original as an added sub-circuit (grouped / not): ONE member is rewritten, every
+                member is looked at, then every other member is rewritten too;
+  2. the one-circuit programs of the first version (swap-dense generator and the C02 tree generator followed
+     by 1-5 random rewrites incl. copy, with the copy-mutation probe) - `run_case`;
+  3. random histories: swaps (biased to the boundary modes of the blocks added so far), plain / grouped /
+     heralded additions at random positions, nested cells, unitary blocks, declared heralds, rewrites in
+     mid-construction, Parameter-valued calls at every depth; then related circuits (copies, frozen copies,
+     sums in both orders, hosts) with edits on either side; then rewrites on ANY live circuit (also the
+     sub-circuits that were added somewhere) interleaved with Parameter.set and further edits.
+
+Oracle of the history streams (`run_history`): after every rewrite, every Parameter.set, every herald
+call and at the end, EVERY live circuit must still be observably equal (n_modes, input size, heralds,
+U_full, still compilable) to the same construction rebuilt from scratch on the implementation, without
+rewrites / copies / Parameters, with the values the circuit is entitled to see now (current values for
+live links, values at the time of the copy for frozen copies) - `c09gen.Sym`.  This is the property's
+clause "the rewrite changes nothing" read over the whole remaining life of the objects: the rewritten
+circuit keeps following its Parameters, and no other circuit notices that a relative was rewritten.
+The target of a rewrite is additionally compared with itself before the rewrite and must satisfy the
+structural postcondition.  Correspondence: the history up to the first Parameter.set is run on the
+model with the rewrites (values as literals), and the final state of every live circuit is compared
+with the model run on the rebuilt programs.
 """
 
 from __future__ import annotations
@@ -15,6 +44,10 @@ import json
 
 import numpy as np
 
+import random
+import time
+
+import c09gen as hg
 import circgen as cg
 import lightworks as lw
 from core import CIRCLE, PYTH, Ctx, ddmin, mat_close, parse_mat
@@ -28,7 +61,11 @@ TRUSTED = [
     "float evaluation of sqrt/arccos/cos/sin/exp up to rounding (1e-9 tolerance)",
     "structural postconditions are read through Circuit._get_circuit_spec() (read-only)",
 ]
-ASSUMPTIONS = ["<= 7 modes, <= 25 components, <= 5 rewrites per circuit in the correspondence check"]
+ASSUMPTIONS = ["<= 7 modes, <= 25 components, <= 5 rewrites per circuit in the one-circuit programs",
+               "histories: main circuits with 3-6 user modes, <= ~10 construction steps, <= 6 related circuits, "
+               "<= 8 rewrite / Parameter.set events; Parameters take exact values (rational points of the circle, "
+               "Pythagorean reflectivities and losses); groups nest at most one level in constructible circuits "
+               "(Circuit.add flattens what it groups), deeper nesting is exercised through nested additions"]
 
 REWRITES = ["unpack", "compress", "nonadj", "copy"]
 
@@ -158,10 +195,271 @@ def run_case(ctx: Ctx, prog: list, top: str, rewrites: list) -> list[str]:
     return probs
 
 
+# --------------------------------------------------------------------------- histories (c09gen)
+
+CHECK_AFTER = (*hg.REWRITE_OPS, "set", "herald")
+_REF: dict = {}
+
+
+def observe(c) -> dict:
+    """public observables (U_full only: one compilation)"""
+    out = {"n": c.n_modes, "input_modes": c.input_modes,
+           "in_heralds": sorted([k, v] for k, v in c.heralds["input"].items()),
+           "out_heralds": sorted([k, v] for k, v in c.heralds["output"].items())}
+    try:
+        out["U_full"] = np.array(c.U_full)
+    except Exception as e:  # noqa: BLE001
+        out["U_error"] = type(e).__name__
+    return out
+
+
+def rebuild(prog: list, top: str) -> dict:
+    """observables of the circuit built from scratch by a plain circgen program (cached)"""
+    key = hg.prog_key([prog, top])
+    if key not in _REF:
+        if len(_REF) > 20000:
+            _REF.clear()
+        pool: dict = {}
+        bad = None
+        for op in prog:
+            r = cg.apply_op(pool, op)
+            if r != "ok" and bad is None:
+                bad = f"{op[:5]} -> {r}"
+        ref = observe(pool[top]) if top in pool else {"U_error": "not built"}
+        if bad:
+            ref["rejected"] = bad
+        _REF[key] = ref
+    return _REF[key]
+
+
+def obs_diff(live: dict, ref: dict) -> str | None:
+    if "U_full" not in ref:
+        return None
+    if "U_full" not in live:
+        return f"it no longer compiles ({live.get('U_error')})"
+    if live["n"] != ref["n"] or live["input_modes"] != ref["input_modes"]:
+        return f"n_modes / input size ({live['n']}, {live['input_modes']}) != ({ref['n']}, {ref['input_modes']})"
+    if live["in_heralds"] != ref["in_heralds"] or live["out_heralds"] != ref["out_heralds"]:
+        return (f"heralds {live['in_heralds']} / {live['out_heralds']} != {ref['in_heralds']} / "
+                f"{ref['out_heralds']}")
+    if live["U_full"].shape != ref["U_full"].shape:
+        return f"U_full shape {live['U_full'].shape} != {ref['U_full'].shape}"
+    if not mat_close(live["U_full"], ref["U_full"]):
+        return f"U_full differs (max |d| = {float(np.abs(live['U_full'] - ref['U_full']).max()):.4f})"
+    return None
+
+
+def model_diff(live: dict, m: dict | None) -> str | None:
+    if m is None:
+        return "the model lost the circuit"
+    if "U_full" not in live:
+        return None
+    if live["n"] != m["n"] or live["input_modes"] != m["input_modes"]:
+        return "n_modes / input size differ from the model"
+    if live["in_heralds"] != sorted(map(list, m["in_heralds"])) or \
+            live["out_heralds"] != sorted(map(list, m["out_heralds"])):
+        return "heralds differ from the model"
+    if not mat_close(live["U_full"], parse_mat(m["U_full"])):
+        return "U_full differs from the model"
+    return None
+
+
+def _model_ids(ids: list, top: str | None) -> list:
+    """the circuits compared with the exact model: its exact compilation is the expensive part of a case, so
+    only the main circuit and the two youngest circuits are observed there (all are compared with the rebuild)"""
+    pick = [i for i in ids if i == top] + [i for i in ids[-2:] if i != top]
+    return pick or ids[-1:]
+
+
+MODEL_MAX_DIM = 9
+
+
+def _small(obs: dict) -> bool:
+    return "U_full" in obs and obs["U_full"].shape[0] <= MODEL_MAX_DIM
+
+
+def run_history(ctx: Ctx, prog: list, model: bool = True, stop_at_first: bool = True,
+                top: str | None = None) -> list[str]:
+    """execute a history on the implementation; `oracle:` problems = property clauses that fail on the
+    implementation, `corr:` problems = differences between the model and the implementation"""
+    probs: list[str] = []
+    pool: dict = {}
+    pars: dict = {}
+    sym = hg.Sym()
+    rewritten: set = set()
+    mprog: list = []  # the history with the rewrites, as literals, up to the first Parameter.set
+    msnap: dict | None = None
+
+    def check_all(k: int, op: list) -> None:
+        name = op[0]
+        for cid in list(pool):
+            if cid not in sym.rec:
+                continue
+            live = observe(pool[cid])
+            rprog, rtop = sym.flatten(cid)
+            ref = rebuild(rprog, rtop)
+            if "rejected" in ref:
+                probs.append(f"corr: a call accepted in the history is rejected when {cid} is rebuilt from "
+                             f"scratch: {ref['rejected']}")
+                continue
+            d = obs_diff(live, ref)
+            if not d:
+                continue
+            if name in hg.REWRITE_OPS and cid == op[1]:
+                probs.append(f"oracle: call #{k} {name} changed its circuit {cid}: {d}")
+            elif name in hg.REWRITE_OPS:
+                probs.append(f"oracle: call #{k} {name} on {op[1]} changed the related circuit {cid}: {d}")
+            elif name == "set":
+                how = "rewritten earlier" if cid in rewritten else "never rewritten"
+                probs.append(f"oracle: after call #{k} Parameter.set({op[1]}) circuit {cid} ({how}) differs from "
+                             f"the same construction built with the current values: {d}")
+            else:
+                probs.append(f"oracle: after call #{k} {op[:5]} circuit {cid} differs from its own "
+                             f"construction rebuilt from scratch: {d}")
+
+    def model_prefix() -> None:
+        nonlocal msnap
+        msnap = {}
+        if not model or not mprog:
+            return
+        ids = _model_ids([cid for cid in pool if cid in sym.rec], top)
+        msnap = {cid: observe(pool[cid]) for cid in ids}
+        ids = [cid for cid in ids if _small(msnap[cid])]
+        if not ids:
+            ctx.count("model:skipped-large")
+            return
+        mres = ctx.model.call({"op": "circ", "prog": mprog, "observe": ids})
+        for mop, r in zip(mprog, mres["results"]):
+            if r != "ok":
+                probs.append(f"corr: the model answers {r} to {mop[:5]}, accepted by the implementation")
+                return
+        for cid in ids:
+            d = model_diff(msnap[cid], mres["final"].get(cid))
+            if d:
+                probs.append(f"corr: {cid} after the history with its rewrites: {d}")
+
+    last = len(prog) - 1
+    for k, op in enumerate(prog):
+        name = op[0]
+        is_rw = name in hg.REWRITE_OPS
+        if name == "set" and msnap is None:
+            model_prefix()
+        pre = before_len = None
+        if is_rw and op[1] in pool:
+            pre = observe(pool[op[1]])
+            before_len = len(pool[op[1]]._get_circuit_spec())
+        r = hg.apply_op(pool, pars, op)
+        if r == "ok":
+            sym.record(op)
+            if msnap is None and name != "set":
+                lit = hg.literal_op(op, sym.val)
+                mprog.append(["copy", *lit[1:]] if name == "copyf" else lit)
+        elif is_rw and op[1] in pool:
+            probs.append(f"oracle: call #{k} {name} on {op[1]} raised {r}")
+        if is_rw and r == "ok":
+            cid = op[1]
+            rewritten.add(cid)
+            post = observe(pool[cid])
+            spec = pool[cid]._get_circuit_spec()
+            if "U_full" in pre:
+                d = obs_diff(post, pre)
+                if d:
+                    probs.append(f"oracle: call #{k} {name} changed its circuit {cid} (before vs after): {d}")
+            if name == "unpack" and spec_has_group(spec):
+                probs.append(f"oracle: a group remains after unpack_groups (call #{k})")
+            if name == "nonadj" and nonadj_bs(spec):
+                probs.append(f"oracle: a non-adjacent beam splitter remains after remove_non_adjacent_bs (call #{k})")
+            if name == "compress" and len(spec) > before_len:
+                probs.append(f"oracle: compress_mode_swaps increased the number of components (call #{k})")
+        if r == "ok" and name in ("copy", "copyf") and op[2] in rewritten:
+            rewritten.add(op[1])
+        if (r == "ok" and name in CHECK_AFTER) or k == last:
+            check_all(k, op)
+        if probs and stop_at_first:
+            return probs
+    if msnap is None:
+        model_prefix()
+    elif model and not probs:
+        # final state of every live circuit against the model run on the rebuilt programs
+        big: list = []
+        tops: dict = {}
+        for j, cid in enumerate(_model_ids([c for c in pool if c in sym.rec], top)):
+            if not _small(observe(pool[cid])):
+                continue
+            rprog, rtop = sym.flatten(cid, prefix=f"f{j}_")
+            big += rprog
+            tops[cid] = rtop
+        mres = ctx.model.call({"op": "circ", "prog": big, "observe": list(tops.values())}) if tops else \
+            {"results": [], "final": {}}
+        if any(r != "ok" for r in mres["results"]):
+            probs.append("corr: the model rejects a call of a rebuilt program")
+        else:
+            for cid, rtop in tops.items():
+                d = model_diff(observe(pool[cid]), mres["final"].get(rtop))
+                if d:
+                    probs.append(f"corr: {cid} at the end of the history vs the model on the rebuilt program: {d}")
+    return probs
+
+
+def _kind(p: str) -> str:
+    for tag, words in (("rewrite-changed-its-circuit", "changed its circuit"),
+                       ("rewrite-changed-related-circuit", "changed the related circuit"),
+                       ("parameter-link", "Parameter.set"), ("postcondition", "remains after"),
+                       ("postcondition", "increased the number"), ("rewrite-raised", "raised")):
+        if words in p:
+            return tag
+    return "frame"
+
+
+def check_history(ctx: Ctx, prog: list, top: str, stream: str, nontriv: bool = True, sample: bool = False,
+                  model: bool = True) -> None:
+    probs = run_history(ctx, prog, model=model, top=top)
+    if not model:
+        ctx.count(f"{stream}:oracle-only")
+    ctx.case(hg.prog_key(prog), nontriv, sample={"history": prog} if sample else None)
+    if not probs:
+        return
+    ctx.count("histories_with_problems")
+    ctx.count(f"histories_with_problems:{stream}")
+    want_oracle = any(p.startswith("oracle") for p in probs)
+
+    def fails(sub):
+        ps = run_history(ctx, sub, model=not want_oracle, top=top)
+        return any(p.startswith("oracle") for p in ps) if want_oracle else bool(ps)
+
+    def still(sub):
+        return hg.well_formed(sub) and fails(sub)
+
+    reported = len(ctx.violations) + len(ctx.disagreements)
+    small = ddmin(prog, still, max_tests=300 if reported < ctx.max_reports else 20)
+    sprobs = run_history(ctx, small, model=not want_oracle, stop_at_first=False, top=top) or probs
+    oracle = [p for p in sprobs if p.startswith("oracle")]
+    rep = {"history": small, "top": top, "problems": sprobs, "stream": stream}
+    if oracle:
+        ctx.violation(oracle[0], rep, sig={"kind": _kind(oracle[0]), "ops": sorted({o[0] for o in small})})
+    else:
+        ctx.disagreement(sprobs[0], rep)
+
+
 def run(ctx: Ctx) -> None:
-    ctx.rule = ("circuits from the C02 tree generator and a swap-dense generator, followed by 1-5 random rewrites "
-                "(unpack_groups, compress_mode_swaps, remove_non_adjacent_bs, copy); non-trivial = the circuit holds a "
-                "mode swap or a group or a non-adjacent beam splitter; distinct = distinct (program, rewrites)")
+    ctx.rule = ("(1) directed histories: block x ancilla position x boundary swap x rewrite sequence (hoist), "
+                "Parameter placement x kind x rewrite sequence x later Parameter.set (params), families of related "
+                "circuits with one member rewritten (family); (2) one-circuit programs from the C02 tree generator and a "
+                "swap-dense generator followed by 1-5 random rewrites (unpack_groups, compress_mode_swaps, "
+                "remove_non_adjacent_bs, copy); (3) random histories mixing all of it, rewrites on any live circuit "
+                "interleaved with Parameter.set; after every rewrite / set every live circuit is compared with its own "
+                "construction rebuilt from scratch; non-trivial = holds a mode swap or a group or a non-adjacent beam "
+                "splitter; distinct = distinct program")
+    t0 = time.time()
+    hrng = random.Random(f"C09-histories-{ctx.seed}")
+    # -- 1. directed corpus (always first)
+    for name, gen in (("hoist", hg.corpus_hoist), ("params", hg.corpus_params), ("family", hg.corpus_family)):
+        for i, (prog, top) in enumerate(gen(ctx, hrng)):
+            if ctx.out_of_time():
+                break
+            check_history(ctx, prog, top, "corpus-" + name, sample=(i == 0 and name == "hoist"))
+    t1 = time.time()
+    # -- 2. one-circuit programs
     N = ctx.n(300, 8000)
     rng = ctx.rng
     for i in range(N):
@@ -182,7 +480,7 @@ def run(ctx: Ctx) -> None:
         probs = run_case(ctx, prog, top, rewrites)
         nontriv = any(op[0] in ("swaps", "add") for op in prog) or any(
             op[0] == "bs" and abs(op[2] - op[3]) != 1 for op in prog)
-        ctx.case(repr((prog, rewrites)), nontriv, sample={"program": prog, "rewrites": rewrites} if i < 2 else None)
+        ctx.case(repr((prog, rewrites)), nontriv, sample={"program": prog, "rewrites": rewrites} if i < 1 else None)
         if probs:
             ctx.count("programs_with_problems")
 
@@ -199,11 +497,24 @@ def run(ctx: Ctx) -> None:
                 ctx.violation(oracle[0], rep, sig={"kind": oracle[0][8:40], "rewrites": rsmall})
             else:
                 ctx.disagreement(sprobs[0], rep)
+    t2 = time.time()
+    # -- 3. random histories
+    for i in range(ctx.n(220, 6000)):
+        if ctx.out_of_time():
+            break
+        prog, top = hg.random_history(ctx, hrng)
+        nontriv = any(op[0] in ("swaps", "add") for op in prog)
+        check_history(ctx, prog, top, "random", nontriv, sample=i == 0, model=i % 2 == 0)
+    ctx.extra["stream_wall_s"] = {"corpus": round(t1 - t0, 1), "one-circuit": round(t2 - t1, 1),
+                                  "histories": round(time.time() - t2, 1)}
 
 
 def replay(ctx: Ctx, path: str) -> None:
     data = json.load(open(path))["replay"]
-    probs = run_case(ctx, data["program"], data["top"], data["rewrites"])
+    if "history" in data:
+        probs = run_history(ctx, data["history"], stop_at_first=False, top=data.get("top"))
+    else:
+        probs = run_case(ctx, data["program"], data["top"], data["rewrites"])
     ctx.case("replay", True, sample=data)
     for p in probs:
         print("replay:", p)
